@@ -194,3 +194,32 @@ Definition client_verify (pk : pubkey) (input output : bytes) (pr : option proof
       else false
   end.
 End PP.
+
+(* ---------- the exported key state (feature key-sync): bincode of (oprf_key, public_key, ggm_key) ----------
+   ggm_key = prgs: Vec<[u8;32]>, prefixes: Vec<(BitVec<usize,Lsb0>, Vec<u8>)>, punctured: Vec<BitVec>;
+   a BitVec serialises as { order: "bitvec::order::Lsb0", head: {width: 64, index: 0}, bits: u64, data: [u64] } *)
+Definition bitvec_order : bytes :=
+  [98; 105; 116; 118; 101; 99; 58; 58; 111; 114; 100; 101; 114; 58; 58; 76; 115; 98; 48]%N.
+Fixpoint bits_value (bs : bits) : N :=
+  match bs with [] => 0%N | b :: t => ((if b then 1 else 0) + 2 * bits_value t)%N end.
+Fixpoint words64 (fuel : nat) (bs : bits) : list bytes :=
+  match fuel with
+  | O => []
+  | S f => match bs with
+           | [] => []
+           | _ => bytes_of_le 8 (bits_value (firstn 64 bs)) :: words64 f (skipn 64 bs)
+           end
+  end.
+Definition bitvec_to_bincode (bs : bits) : bytes :=
+  let ws := words64 (S (length bs)) bs in
+  bytes_of_le 8 (N.of_nat (length bitvec_order)) ++ bitvec_order ++ [64%N; 0%N]
+  ++ bytes_of_le 8 (N.of_nat (length bs)) ++ bytes_of_le 8 (N.of_nat (length ws)) ++ concat ws.
+Definition vec_u8_to_bincode (b : bytes) : bytes := bytes_of_le 8 (N.of_nat (length b)) ++ b.
+Definition ggm_to_bincode (k0 k1 : bytes) (g : gstate bytes) : bytes :=
+  bytes_of_le 8 2 ++ k0 ++ k1
+  ++ bytes_of_le 8 (N.of_nat (length (gPrefixes bytes g)))
+  ++ flat_map (fun ps => bitvec_to_bincode (fst ps) ++ vec_u8_to_bincode (snd ps)) (gPrefixes bytes g)
+  ++ bytes_of_le 8 (N.of_nat (length (gPunctured bytes g)))
+  ++ flat_map bitvec_to_bincode (gPunctured bytes g).
+Definition server_to_bincode (s : server) : bytes :=
+  sc_to_bytes (sv_key s) ++ pk_to_bincode (sv_pk s) ++ ggm_to_bincode (sv_k0 s) (sv_k1 s) (sv_ggm s).
